@@ -28,6 +28,11 @@ def x_obligations(tier):
     for pre, n, suf in ship:
         o.append(Obl(f"C01-oracle[shipped,{pre!r}+{n}+{suf!r}]", M, "oracle", env={"VF_CONF": "shipped", "VF_PRE": pre, "VF_N": str(n), "VF_SUF": suf}, timeout=T, path_timeout=200, family="C01-shipped",
                      bound=f"shipped configuration: s = {pre!r}+c+{suf!r}, c one symbolic character"))
+    # typing / rebuilding a plain string answers the same after a Sid OBJECT of the same string (forced, non-first type)
+    # went through Sid(): spil's caches on, histories from C13's call alphabet (calls 1-3 first, every call second)
+    for i in (1, 2, 3):
+        o.append(Obl(f"C01-history[after call#{i}]", "xhair.obl.c13", "pair", env={"VF_IDX": str(i), "VF_FIRST": "local"}, timeout=170 if tier == "quick" else 600, family="C01-history",
+                     bound=f"history (call #{i}: a uri / Sid object with a forced type, call j) for every j of the 29-call alphabet of C13, caches on"))
     o.append(Obl("C01-reach[len<=6]", M, "reach_typed", env={"VF_N": "6"}, timeout=150, expect="refute", family="C01-twin"))
     return o
 
